@@ -1,4 +1,6 @@
 """C05 - each iterator visits every node of the subtree exactly once in its defined order."""
+import itertools
+
 from hypothesis import strategies as st
 
 from anytree import LevelOrderGroupIter, LevelOrderIter, PostOrderIter, PreOrderIter, ZigZagGroupIter
@@ -11,7 +13,8 @@ LEVEL = "exploration"
 RULE = (
     "cases = (ordered tree shape, start node, node class); every shape up to the stated size is enumerated with every "
     "start node (quick <= 8 nodes, thorough <= 11), plus Hypothesis-generated shapes up to 60 nodes (uniform/chain/star "
-    "biased parent arrays). Non-trivial = the start node's subtree has >= 4 nodes and height >= 2; enumerated cases are "
+    "biased parent arrays). Besides one-go consumption every iterator object is also used in two portions (loop left early, "
+    "next(), islice, zip, a sub-iterator from iter(), then resumed and exhausted), abandoned half-way and interleaved with another one. Non-trivial = the start node's subtree has >= 4 nodes and height >= 2; enumerated cases are "
     "distinct by construction, generated ones are de-duplicated by a 64-bit hash of the case."
 )
 ASSUMPTIONS = [
@@ -52,6 +55,54 @@ def check_case(case, acc):
         acc.tag("rechecked_after_mutation")
 
 
+def _ids(item):
+    return tuple(id(n) for n in item) if isinstance(item, tuple) else id(item)
+
+
+def consume(it, mode, k):
+    """Everything the iterator object `it` hands out when it is used in two portions (the first of <= k items)."""
+    got = []
+    if mode == "for-break":
+        if k:
+            for item in it:
+                got.append(item)
+                if len(got) >= k:
+                    break
+    elif mode == "next":
+        for _ in range(k):
+            try:
+                got.append(next(it))
+            except StopIteration:
+                break
+    elif mode == "islice":
+        got.extend(itertools.islice(it, k))
+    elif mode == "zip":
+        got.extend(item for _, item in zip(range(k), it))
+    elif mode == "iter-next":
+        sub = iter(it)
+        for _ in range(k):
+            try:
+                got.append(next(sub))
+            except StopIteration:
+                break
+        del sub
+    else:
+        raise ValueError(mode)
+    # second portion: the same iterator object, used again
+    if k % 2:
+        got.extend(it)
+    else:
+        for item in it:
+            got.append(item)
+    # and it stays exhausted
+    if list(it) != [] or next(it, None) is not None:
+        raise Violation("resumed-iteration", "%s hands out more items after it was exhausted" % type(it).__name__)
+    return got
+
+
+CONSUME_MODES = ["for-break", "next", "islice", "zip", "iter-next"]
+
+
 def _once(case, acc, tree, labels):
     start = tree[case["start"]]
     before = forest.snapshot(tree, labels)
@@ -77,6 +128,13 @@ def _once(case, acc, tree, labels):
         next(inter_b, None)
     if not refs.same_seq([n for n in mixed if n is not None], post[:3]):
         raise Violation("interleaved-iteration", "PostOrderIter advanced alternately with another PostOrderIter yields %s, expected %s" % (lab([n for n in mixed if n is not None]), lab(post[:3])))
+    # an iterator object may be used in portions (a loop left early, islice, zip, next()): together the portions are the full sequence
+    zz_ref = refs.zigzag(lvls)
+    for cls, want in ((PreOrderIter, pre), (PostOrderIter, post), (LevelOrderIter, level), (LevelOrderGroupIter, [tuple(g) for g in lvls]), (ZigZagGroupIter, [tuple(g) for g in zz_ref])):
+        for mode, k in case.get("portions") or [[CONSUME_MODES[(len(pre) + j) % len(CONSUME_MODES)], 1 + (len(pre) * (j + 1)) // 3] for j in range(2)]:
+            got = consume(cls(start), mode, k)
+            if [_ids(x) for x in got] != [_ids(x) for x in want]:
+                raise Violation("resumed-iteration", "%s used in two portions (%s, first %d): got %d items %r, expected %d" % (cls.__name__, mode, k, len(got), [lab(x) if isinstance(x, tuple) else labels.label(x) for x in got], len(want)))
     got_pre = list(PreOrderIter(start))
     if not refs.same_seq(got_pre, pre):
         raise Violation("preorder", "expected %s got %s" % (lab(pre), lab(got_pre)))
@@ -142,7 +200,8 @@ def random_cases(draw):
     start = draw(st.one_of(st.just(0), st.integers(0, size - 1)))
     cls = draw(st.sampled_from(nodes.TREE_CLASSES))
     via = draw(st.sampled_from(["parent", "children"]))
-    return {"shape": shape, "start": start, "cls": cls, "via": via, "mutations": draw(strategies.tree_mutations())}
+    portions = draw(st.lists(st.tuples(st.sampled_from(CONSUME_MODES), st.integers(0, 12)).map(list), min_size=1, max_size=3))
+    return {"shape": shape, "start": start, "cls": cls, "via": via, "mutations": draw(strategies.tree_mutations()), "portions": portions}
 
 
 def plan(tier, seed):
